@@ -1,1 +1,150 @@
-(* Props/C03.v — to be filled *)
+(* Props/C03.v — property theorems only.  Model: Model/Persist.v (hand
+   transcription of _to_text, _from_text, to_file/from_file and
+   _CompiledImporter of excelcompiler.py on top of the machine of Model/Graph.v;
+   tied by the differential run of harness/props/c03.py).  Every theorem holds
+   for EVERY address geometry G, EVERY meaning of formula code (cdeps = the
+   precedents, csem = the value; rsem = the value of a range node) and EVERY
+   model object M.
+
+   Vocabulary (Model/Persist.v, Proofs/C03.v, C03Graph.v, C01*.v):
+     pmodel           a compiled model: workbook, python code of the formula
+                      cells, machine state, key order of the cell map, settings
+     to_text M        (document, M after the call): the ordered top-level mapping
+                      user extra_data + cycles, excel_hash, cell_map, filename;
+                      cell_map = the serialisable built nodes sorted by sort key
+     from_text f      the model rebuilt from a document (res: KeyError/Unmodelled)
+     roundtrip_pkl    from_text of to_text (to_file pickles exactly that object;
+                      pickle.load . pickle.dump = id is trusted)
+     roundtrip_text   the same through the scalar printer and parser of yaml/json
+     pm_ok G cdeps M  M agrees with the geometry (size, which addresses are
+                      ranges, their members), a built formula cell's precedents
+                      are those of its code, the key order enumerates the built
+                      nodes without repetition
+     no_eq_text M     side condition: no built input cell holds a text that
+                      starts with "=" (Refuted/C03_eq_text.v)
+     code_nonblank    formulas and ranges never evaluate to None (C01's (d))
+     abs M            per address: None (not saved) | the input's value | the
+                      formula's code and precedents
+     allcells W s     every cell (non-range node) of W is built in s
+     post_ok W o      Evaluate n / Build n: n < wb_n; SetValue a v: a is an input
+                      cell, v an Excel scalar (C01.scalar_exact)
+     region M n       n is built, or n is a range all of whose members are built
+     post_in M o      Evaluate n / Build n: region M n; SetValue a v: a is a saved
+                      input cell, v an Excel scalar *)
+From Coq Require Import List Permutation.
+From PV Require Import Lib.Py Model.Graph Model.Persist.
+From PV Require Import Proofs.C01Base Proofs.C01Inv Proofs.C01 Proofs.C03Graph Proofs.C03.
+Import ListNotations.
+
+(* PARTIAL (C03_abs): the loaded model denotes the same workbook with the same
+   inputs.  Missing for the full statement: the side conditions no_eq_text
+   (needed: Refuted/C03_eq_text.v) and code_nonblank (inherited from C01). *)
+Theorem C03_abs_partial : forall G cdeps csem rsem M,
+  pm_ok G cdeps M -> wf (pm_wb M) -> code_nonblank csem rsem ->
+  Inv (pm_wb M) (pm_sem csem rsem M) (pm_state M) -> no_eq_text M ->
+  exists M', roundtrip_pkl G cdeps csem rsem M = Ok M' /\ abs M' = abs M.
+Proof. exact abs_roundtrip. Qed.
+Print Assumptions C03_abs_partial.
+
+(* PARTIAL (C03_equiv): a model in which every cell is built answers EVERY
+   post-load history of evaluate / set_value / build exactly as the original
+   object does — both traces are the from-scratch values under the inputs
+   written so far (C01's coherence theorem on both sides).  Missing for the full
+   statement: models saved before every cell was built (next theorem), the
+   side conditions no_eq_text / code_nonblank and
+   those of C01 (stored_ok; writes to input cells only), iterative models. *)
+Theorem C03_equiv_partial : forall G cdeps csem rsem M,
+  pm_ok G cdeps M -> wf (pm_wb M) -> code_nonblank csem rsem ->
+  Inv (pm_wb M) (pm_sem csem rsem M) (pm_state M) -> no_eq_text M ->
+  stored_ok (pm_wb M) (pm_sem csem rsem M) -> allcells (pm_wb M) (pm_state M) ->
+  inputs_exact (pm_wb M) (st_cache (pm_state M)) ->
+  exists M', roundtrip_pkl G cdeps csem rsem M = Ok M' /\
+    forall h, Forall (post_ok (pm_wb M)) h ->
+      snd (run (pm_wb M') (pm_sem csem rsem M') (pm_state M') h)
+      = snd (run (pm_wb M) (pm_sem csem rsem M) (pm_state M) h)
+      /\ snd (run (pm_wb M) (pm_sem csem rsem M) (pm_state M) h)
+         = run_spec (pm_wb M) (pm_sem csem rsem M) (st_cache (pm_state M)) h.
+Proof. exact equiv_roundtrip. Qed.
+Print Assumptions C03_equiv_partial.
+
+(* PARTIAL (C03_equiv, models saved before every cell was built): every history
+   that stays inside the saved part (region: the built nodes and the ranges over
+   built cells; writes to saved input cells) and is admissible for the original
+   in C01's sense (ok_history: the build-order condition late_ok for workbooks
+   with stored results) is answered by the loaded model as by the original.
+   Missing: as above; a history that leaves the saved part is outside the
+   property (the original reads the workbook, the loaded model sees a blank). *)
+Theorem C03_equiv_region_partial : forall G cdeps csem rsem M,
+  pm_ok G cdeps M -> wf (pm_wb M) -> code_nonblank csem rsem ->
+  Inv (pm_wb M) (pm_sem csem rsem M) (pm_state M) -> no_eq_text M ->
+  stored_ok (pm_wb M) (pm_sem csem rsem M) ->
+  inputs_exact (pm_wb M) (st_cache (pm_state M)) ->
+  exists M', roundtrip_pkl G cdeps csem rsem M = Ok M' /\
+    forall h, Forall (post_in M) h ->
+      ok_history (pm_wb M) (pm_sem csem rsem M) (ok_op (pm_wb M)) (pm_state M) h ->
+      snd (run (pm_wb M') (pm_sem csem rsem M') (pm_state M') h)
+      = snd (run (pm_wb M) (pm_sem csem rsem M) (pm_state M) h).
+Proof. exact equiv_region_roundtrip. Qed.
+Print Assumptions C03_equiv_region_partial.
+
+(* the text formats: with a scalar printer/parser pair that round-trips (the
+   trusted oracle about ruamel.yaml / json, policed by the harness's content
+   pool) a yml/json load is the pkl load *)
+Theorem C03_text_formats : forall G cdeps csem rsem (print : pyval -> str) (parse : str -> pyval) M,
+  (forall v, parse (print v) = v) ->
+  roundtrip_text G cdeps csem rsem print parse M = roundtrip_pkl G cdeps csem rsem M.
+Proof. exact text_formats. Qed.
+Print Assumptions C03_text_formats.
+
+(* saving is deterministic: with distinct sort keys the document depends only on
+   the content, not on the order in which the cells entered the cell map
+   (Proofs/C03Example.v same_key_order_matters: needed) *)
+Theorem C03_deterministic : forall G M1 M2,
+  Permutation (pm_order M1) (pm_order M2) ->
+  (forall n, In n (pm_order M1) ->
+     wb_range (pm_wb M1) n = wb_range (pm_wb M2) n /\ cell_value M1 n = cell_value M2 n) ->
+  NoDup (map (g_key G) (filter (fun n => negb (wb_range (pm_wb M1) n)) (pm_order M1))) ->
+  pm_cycles M1 = pm_cycles M2 -> pm_filename M1 = pm_filename M2 -> pm_hash M1 = pm_hash M2 ->
+  pm_extra M1 = pm_extra M2 ->
+  fst (to_text G M1) = fst (to_text G M2).
+Proof. exact deterministic_doc. Qed.
+Print Assumptions C03_deterministic.
+
+(* PARTIAL (second save of the same object is identical): proved for
+   extra_data = None; with a dictionary the key order changes
+   (Refuted/C03_resave_extra_data.v) … *)
+Theorem C03_resave_partial : forall G M, pm_extra M = None ->
+  fst (to_text G (snd (to_text G M))) = fst (to_text G M).
+Proof. exact resave_same. Qed.
+Print Assumptions C03_resave_partial.
+
+(* … but the content, key by key, is always the same *)
+Theorem C03_resave_content : forall G M k,
+  d_get (fst (to_text G (snd (to_text G M)))) k = d_get (fst (to_text G M)) k.
+Proof. exact resave_content. Qed.
+Print Assumptions C03_resave_content.
+
+(* PARTIAL (C03_idempotent): saving the loaded model reproduces the cell map as
+   a LIST (same addresses in the same order, same code, same constants — no
+   condition on the sort keys: sorted() is stable) and the same content for
+   every top-level key.  Missing: no_eq_text / code_nonblank. *)
+Theorem C03_idempotent_partial : forall G cdeps csem rsem M,
+  pm_ok G cdeps M -> wf (pm_wb M) -> code_nonblank csem rsem ->
+  Inv (pm_wb M) (pm_sem csem rsem M) (pm_state M) -> no_eq_text M ->
+  exists M', roundtrip_pkl G cdeps csem rsem M = Ok M' /\
+    saved_cells G M' = saved_cells G M /\
+    forall k, d_get (fst (to_text G M')) k = d_get (fst (to_text G M)) k.
+Proof. exact idempotent. Qed.
+Print Assumptions C03_idempotent_partial.
+
+(* the iteration settings, workbook file name, source hash and every user key of
+   extra_data survive the trip *)
+Theorem C03_settings : forall G cdeps csem rsem M,
+  pm_ok G cdeps M -> Inv (pm_wb M) (pm_sem csem rsem M) (pm_state M) ->
+  exists M', roundtrip_pkl G cdeps csem rsem M = Ok M' /\
+    pm_cycles M' = pm_cycles M /\ pm_filename M' = pm_filename M /\ pm_hash M' = pm_hash M /\
+    forall k, reserved k = false ->
+      d_get (match pm_extra M' with None => [] | Some d => d end) k =
+      d_get (match pm_extra M with None => [] | Some d => d end) k.
+Proof. exact settings_roundtrip. Qed.
+Print Assumptions C03_settings.
